@@ -46,7 +46,6 @@ func (a *verifAssets) Resthooks() *flows.ResthookAssets     { return flows.NewRe
 func (a *verifAssets) OptIns() *flows.OptInAssets           { return flows.NewOptInAssets(nil) }
 
 func (a *verifAssets) Get(uuid assets.FlowUUID) (flows.Flow, error) {
-	a.lookups = append(a.lookups, uuid)
 	if f, ok := a.flowsByUUID[uuid]; ok && f != nil {
 		return f, nil
 	}
@@ -305,4 +304,10 @@ func verifFlowOf(flow int, nodes ...flows.Node) flows.Flow {
 
 func verifResumeMsg(urn urns.URN) flows.Resume {
 	return resumes.NewMsg(nil, nil, flows.NewMsgIn(flows.MsgUUID("msg2"), urn, nil, "again", nil))
+}
+
+func envLang(l string) i18n.Language { return i18n.Language(l) }
+
+func verifResumeText(text string) flows.Resume {
+	return resumes.NewMsg(nil, nil, flows.NewMsgIn(flows.MsgUUID("msg3"), urns.URN("twitter:bob"), nil, text, nil))
 }
